@@ -159,19 +159,19 @@ inductive Kind where
 /-- the container type test of `_iter_share_files` (mutable magic first, then immutable version) -/
 def kindOf (f : File) : Kind :=
   if (Mutable.schemaOf f).isSome then .mutable
-  else if (Imm.schemaOf f).isSome then .immutable
+  else if (ImmL.schemaOf f).isSome then .immutable
   else .other
 
 def shareAddOrRenew (env : Env) (f : File) (li : Lease) : File × Option Err :=
   match kindOf f with
   | .mutable => Mutable.addOrRenew env.h f env.avail li
-  | .immutable => Imm.addOrRenew env.h f env.avail li
+  | .immutable => ImmL.addOrRenew env.h f env.avail li
   | .other => (f, none)
 
 def shareRenew (env : Env) (f : File) (secret : Bytes) (newExpire : Nat) : File × Option Err :=
   match kindOf f with
   | .mutable => Mutable.renewLease env.h f secret newExpire
-  | .immutable => Imm.renewLease env.h f secret newExpire
+  | .immutable => ImmL.renewLease env.h f secret newExpire
   | .other => (f, none)
 
 /-- `StorageServer.add_lease`: `add_or_renew_lease` on every share file, in directory order
